@@ -110,6 +110,8 @@ def calibrate(snap, n: int) -> dict:
     rng = random.Random("calibrate")
     for i in range(n):
         inp = cliworld.make_input(rng, f"c{i}", p_bad=0.35)
+        inp["rel"] = "in/base_input.tjp"
+        inp["arg_rel"] = "../in/base_input.tjp"
         ps = cliworld.make_proc(rng, inp, 0)
         if ps["channel"] == "file-abs":
             ps["argv"][-1] = "../in/base_input.tjp"
